@@ -51,6 +51,7 @@ structure Totals where
   bad : Nat := 0
   nontrivial : Std.HashSet UInt64 := {}
   reported : Nat := 0
+  info : List (String × Nat) := []
 
 /-- at most this many non-ok lines are echoed in full -/
 def maxReports : Nat := 200
@@ -63,6 +64,10 @@ partial def loop (h : IO.FS.Stream) (out : IO.FS.Stream) (t : Totals) : IO Total
   let v := dispatch (line.splitOn "|")
   let mut t := { t with cases := t.cases + 1 }
   if v.nontrivial then t := { t with nontrivial := t.nontrivial.insert (hash line) }
+  if let some k := v.info then
+    t := { t with info := match t.info.find? (·.1 == k) with
+      | some _ => t.info.map (fun p => if p.1 == k then (p.1, p.2 + 1) else p)
+      | none => t.info ++ [(k, 1)] }
   if v.bad then
     t := { t with bad := t.bad + 1 }
     if t.reported < maxReports then
@@ -86,7 +91,7 @@ def run : IO UInt32 := do
   let stdin ← IO.getStdin
   let stdout ← IO.getStdout
   let t ← loop stdin stdout {}
-  stdout.putStrLn s!"SUMMARY\t\{\"cases\":{t.cases},\"ok\":{t.ok},\"model_diff\":{t.modelDiff},\"oracle_fail\":{t.oracleFail},\"bad\":{t.bad},\"distinct_nontrivial\":{t.nontrivial.size}}"
+  stdout.putStrLn s!"SUMMARY\t\{\"cases\":{t.cases},\"ok\":{t.ok},\"model_diff\":{t.modelDiff},\"oracle_fail\":{t.oracleFail},\"bad\":{t.bad},\"distinct_nontrivial\":{t.nontrivial.size},\"info\":\{{String.intercalate "," (t.info.map (fun p => s!"\"{p.1}\":{p.2}"))}}}"
   return 0
 
 end Driver
